@@ -19,6 +19,9 @@ var (
 	_ transport.Closer    = (*Transport)(nil)
 )
 
+// minWriteDictSize is the length below which the sliding dictionary is not handed to the compressor.
+const minWriteDictSize = 512
+
 // Transportは、WebSocketトランスポートです。
 type Transport struct {
 	wsconn      Conn
@@ -186,7 +189,16 @@ func (t *Transport) encodeToWithContextTakeover(wr io.Writer, bs []byte) (int, e
 	t.writeWindowBufMu.Lock()
 	defer t.writeWindowBufMu.Unlock()
 
-	fwr, err := flate.NewWriterDict(buf, t.compressConfig.Level, t.writeWindowBuf.Bytes())
+	// compress/flate writes a preset dictionary out as message data when it stores the first block of the message
+	// uncompressed (incompressible input), which it does whenever the dictionary is short enough for the stored block to
+	// look cheaper than the Huffman-coded one (observed up to some dozen bytes; the coding overhead of one block stays
+	// below minWriteDictSize). Using the dictionary is optional for the sender, so a short one is not used; the peer
+	// still decodes with its own copy.
+	dict := t.writeWindowBuf.Bytes()
+	if len(dict) < minWriteDictSize {
+		dict = nil
+	}
+	fwr, err := flate.NewWriterDict(buf, t.compressConfig.Level, dict)
 	if err != nil {
 		return 0, err
 	}
